@@ -605,6 +605,13 @@ def _blockid(R, BlockId, BlockIdExt, codec, lib, wc, shard, seqno, rh, fh, W):
                             ('file_hash', BlockIdExt(wc, shard, seqno, rh, flip(fh)))):
             R.check(other != a and not (other == a) and len({a, other}) == 2 and other.to_bytes() != a.to_bytes(), f'blockidext-different-{what}-collide',
                     f'BlockIdExt objects differing in {what} compare equal / serialise alike', W)
+        # a dictionary key lives next to keys of other types: one with the very same hash (the tuple of the five fields) must not make the dictionary unusable, and
+        # comparing with None / bytes / a tuple is an answer (False), not an error
+        tup = (wc, shard, seqno, rh, fh)
+        mixed = {tup: 'tuple', a: 'blockid', None: 'none', a.to_bytes(): 'bytes'}
+        st, got = mon.call(lambda: (mixed[b], mixed[tup], len(mixed), a in [None, tup, b], a == None, a != tup, a == a.to_bytes()))      # noqa: E711
+        R.check(st == 'ok' and got == ('blockid', 'tuple', 4, True, False, True, False), 'blockidext-key-among-keys-of-other-types',
+                f'a BlockIdExt used as a dictionary key next to keys of other types (one with the same hash), or compared with None / a tuple / bytes: {got!r}', W)
     e = BlockId(wc, shard, seqno)
     f = BlockId.from_dict(e.to_dict())
     R.check((f.workchain, f.shard, f.seqno) == (wc, shard, seqno), 'blockid-dict-roundtrip', 'BlockId.from_dict(to_dict()) loses information', W)
